@@ -669,7 +669,7 @@ def _op_robust(ctx, op, state):
             ctx.violate("exact-core", "robust", sig, f"robust solver on its own fitted core model of Z={z} off by {err:.3g} (> {CORE_BOUND}); draw {beh}:{bseed}")
     elif err > _acc_bound(ctx):
         ctx.violate("accuracy", "robust", sig, f"robust potential off by {err:.3g}")
-    rk = ("robust", kind, z, bool(o.get("split2")), bool(o.get("split2") and o.get("basis")))
+    rk = ("robust", kind, z, bool(o.get("split2")), (bseed % 3, (bseed // 3) % 2) if (o.get("split2") and o.get("basis")) else None)
     prev = state["results"].get(rk)
     if prev is not None:
         sp = float(np.max(np.abs(prev - v))) / scale
